@@ -733,6 +733,8 @@ type DeepPathQuery struct {
 	From   func(DeepInstr) bool
 	Stop   func(DeepInstr) bool
 	Target func(DeepInstr) bool
+	// StopEdge, when set, blocks following the edge from block b to its k-th successor.
+	StopEdge func(b *ssa.BasicBlock, k int) bool
 }
 
 func inlinable(root *ssa.Function, ci ssa.CallInstruction, chain []ssa.CallInstruction, depth int) *ssa.Function {
@@ -808,6 +810,18 @@ func (q DeepPathQuery) Find() *DeepInstr {
 					descended = true
 					break
 				}
+				// a call of a function-typed parameter that the chain binds to a closure of a caller
+				if _, isCall := ci.(*ssa.Call); isCall && len(s.chain) > 0 && len(s.chain) < q.Depth+1 {
+					if prm, isP := ci.Common().Value.(*ssa.Parameter); isP {
+						if mc, isMC := d.Resolve(prm).(*ssa.MakeClosure); isMC {
+							if cf, isF := mc.Fn.(*ssa.Function); isF && cf.Blocks != nil {
+								work = append(work, state{append(append([]ssa.CallInstruction{}, s.chain...), ci), cf.Blocks[0], 0})
+								descended = true
+								break
+							}
+						}
+					}
+				}
 			}
 			if _, isRet := in.(*ssa.Return); isRet && len(s.chain) > 0 {
 				call := s.chain[len(s.chain)-1]
@@ -819,7 +833,10 @@ func (q DeepPathQuery) Find() *DeepInstr {
 		if blocked || descended {
 			continue
 		}
-		for _, succ := range s.b.Succs {
+		for k, succ := range s.b.Succs {
+			if q.StopEdge != nil && q.StopEdge(s.b, k) {
+				continue
+			}
 			work = append(work, state{s.chain, succ, 0})
 		}
 	}
